@@ -30,6 +30,7 @@ struct Node {
 	int tab_iter = 0, feat_iter = 0;
 	uint8_t pkt_capacity = 64;
 	uint8_t cs_state = 0, boost_state = 0;
+	uint64_t last_start_us = 0;          // frames of one node keep their order on the wire
 	bool is_interface() const { return uid[0] & 0x80; }
 	uint32_t key() const { uint32_t k = 0; for (size_t i = 0; i < 3; i++) k = (k << 8) | (i < addr.size() ? addr[i] : 0); return k; }
 };
@@ -163,6 +164,11 @@ struct Bus {
 			else if (k == "extradelim") { f.bytes.insert(f.bytes.begin(), ref::MAGIC); fired["extradelim"]++; }
 		}
 		if (split_at >= 0 && !f.bytes.empty()) { split_at = split_at % (long) f.bytes.size(); fired["chunk"]++; }
+		if (node >= 0) {
+			uint64_t st = sim::now_us() + delay_us;
+			if (st <= nodes[(size_t) node].last_start_us) { st = nodes[(size_t) node].last_start_us + 1; delay_us = st - sim::now_us(); }
+			nodes[(size_t) node].last_start_us = st;
+		}
 		UpFrame copy = f;
 		uint64_t r = enqueue(std::move(f), delay_us, gap, split_at, split_gap).id;
 		if (dup) {
